@@ -10,6 +10,14 @@ import (
 	"sync"
 )
 
+// repoPath is the source tree under verification (VERIF_REPO overrides /repo for private snapshots)
+func repoPath() string {
+	if v := os.Getenv("VERIF_REPO"); v != "" {
+		return v
+	}
+	return "/repo"
+}
+
 var harvestOnce sync.Once
 var harvested []string
 
@@ -25,8 +33,8 @@ func harvestedPatterns() []string {
 			}
 		}
 		fset := token.NewFileSet()
-		files, _ := filepath.Glob("/repo/*_test.go")
-		more, _ := filepath.Glob("/repo/*/*_test.go")
+		files, _ := filepath.Glob(repoPath()+"/*_test.go")
+		more, _ := filepath.Glob(repoPath()+"/*/*_test.go")
 		files = append(files, more...)
 		for _, f := range files {
 			src, err := os.ReadFile(f)
